@@ -22,6 +22,22 @@ def observe(spec, inputs):
     n = C.ns()
     model = _model(spec)
     out = {"error": None}
+    if spec["part"] == "requery":
+        try:
+            m = plspec.build(n, model, {})
+            out["e1"] = [str(e) for e in m.errors()]
+            m.flatten()
+            m.variables
+            try:
+                m.assume(dict(inputs["assume"]))
+            except Exception:   # noqa
+                pass
+            out["errors"] = [str(e) for e in m.errors()]
+            out["wd2"] = bool(wd.welldefined_objects(lambda nd: issubclass(nd.__class__, n.puan.variable), m, lambda x: int(x), lambda a, b: a == b,
+                                                     lambda xs: all(xs), True, False))
+        except Exception as e:   # noqa
+            out["error"] = "%s: %s" % (type(e).__name__, e)
+        return out
     try:
         m = plspec.build(n, model, inputs["env"])
         out["errors"] = [str(e) for e in m.errors()]
@@ -35,6 +51,16 @@ def observe(spec, inputs):
 def judge(spec, inputs, out, ob):
     model = _model(spec)
     env = inputs["env"]
+    if spec["part"] == "requery":
+        if out["error"] is not None:
+            return True, "raised: " + out["error"]
+        if out["e1"] != []:
+            return True, "errors() = %s on a well-defined model" % out["e1"]
+        acc = out["errors"] == []
+        if acc != out["wd2"]:
+            return True, "after errors(), flatten(), assume(%s) on the same object: errors() = %s but the object is %swell-defined now | model=%s" % (
+                inputs["assume"], out["errors"], "" if out["wd2"] else "not ", plspec.show(model))
+        return False, ""
     WD = wd.welldefined(model, lambda x: plspec.P(env, x), lambda a, b: a == b, lambda xs: all(xs), True, False)
     try:
         n = C.ns()
